@@ -316,6 +316,52 @@ def _split(test: ast.AST, pol: bool) -> list[tuple[ast.AST, bool]]:
 
 
 # ---------------------------------------------------------------------------
+def _named_conditions(fn: ast.AST) -> dict[str, ast.expr]:
+    """Locals bound once to a comparison (or a not / and / or of comparisons)
+    over names that are themselves never rebound after: a test of such a local
+    is a test of the condition, and is built as one."""
+    if not hasattr(fn, "body") or not isinstance(fn.body, list):
+        return {}
+    count: dict[str, int] = {}
+    defs: dict[str, ast.expr] = {}
+    for n in ast.walk(fn):
+        if isinstance(n, (ast.FunctionDef, ast.AsyncFunctionDef, ast.Lambda)) and n is not fn:
+            continue
+        tg: list[ast.AST] = []
+        if isinstance(n, ast.Assign):
+            tg = list(n.targets)
+        elif isinstance(n, (ast.AnnAssign, ast.AugAssign, ast.NamedExpr)):
+            tg = [n.target]
+        elif isinstance(n, (ast.For, ast.AsyncFor, ast.comprehension)):
+            tg = [n.target]
+        elif isinstance(n, (ast.With, ast.AsyncWith)):
+            tg = [i.optional_vars for i in n.items if i.optional_vars is not None]
+        elif isinstance(n, ast.ExceptHandler) and n.name:
+            count[n.name] = count.get(n.name, 0) + 2
+        for t in tg:
+            for x in ast.walk(t):
+                if isinstance(x, ast.Name):
+                    simple = isinstance(n, (ast.Assign, ast.AnnAssign)) and x is t and getattr(n, "value", None) is not None and len(getattr(n, "targets", [t])) == 1
+                    count[x.id] = count.get(x.id, 0) + (1 if simple else 2)
+                    if simple:
+                        defs[x.id] = n.value
+    a = fn.args
+    params = {p.arg for p in a.posonlyargs + a.args + a.kwonlyargs + ([a.vararg] if a.vararg else []) + ([a.kwarg] if a.kwarg else [])}
+    out = {}
+    for name, v in defs.items():
+        if count.get(name) != 1 or name in params:
+            continue
+        if not (isinstance(v, (ast.Compare, ast.BoolOp)) or (isinstance(v, ast.UnaryOp) and isinstance(v.op, ast.Not))):
+            continue
+        if any(isinstance(x, (ast.Call, ast.NamedExpr, ast.Await, ast.Yield)) and not (isinstance(x, ast.Call) and isinstance(x.func, ast.Name) and x.func.id in ("len", "isinstance", "int", "bool", "all", "any"))
+               for x in ast.walk(v)):
+            continue  # evaluated once at the definition, possibly with effects: not the same as evaluating it at the test
+        free = {x.id for x in ast.walk(v) if isinstance(x, ast.Name)}
+        if all(count.get(f, 0) <= (0 if f in params else 1) for f in free):
+            out[name] = v
+    return out
+
+
 class _Builder:
     def __init__(self, fn: ast.AST, noreturn: Callable[[ast.Call], bool] | None = None):
         self.g = CFG(fn)
@@ -327,6 +373,7 @@ class _Builder:
         # stack of exception contexts: list of (handler entry ids, catches_all)
         self.exc_stack: list[tuple[list[int], bool]] = []
         self.loop_stack: list[tuple[int, list[int]]] = []  # (continue target, break sources)
+        self.named = _named_conditions(fn)
 
     def build(self) -> CFG:
         body = self.g.fn.body  # type: ignore[attr-defined]
@@ -372,6 +419,9 @@ class _Builder:
 
     def test(self, expr: ast.AST, ends: list[tuple[int, object]], stmt: ast.stmt) -> tuple[list[tuple[int, object]], list[tuple[int, object]]]:
         """Build nodes for a branching expression; returns (true_ends, false_ends)."""
+        if isinstance(expr, ast.Name) and expr.id in self.named:
+            # `bad = a >= b` ... `if bad:` branches on the condition the local names
+            return self.test(self.named[expr.id], ends, stmt)
         if isinstance(expr, ast.UnaryOp) and isinstance(expr.op, ast.Not):
             t, f = self.test(expr.operand, ends, stmt)
             return f, t
